@@ -7,5 +7,5 @@ def drive (body impl : String) : Verdict :=
   let bad := if impl == "within" then [] else
     if impl.startsWith "early" then [s!"[rt-early] {body}: returned {impl} ns before the requested timeout"]
     else [s!"[rt-late-or-abnormal] {body}: {impl}"]
-  { modelOut := "within", spec := [("C14", bad.isEmpty, joinWith " ; " bad)], labels := (words body).take 1, blame := some [] }
+  { modelOut := "within", spec := [("C14", bad.isEmpty, joinWith " ; " bad)], labels := (words body).take 1 ++ [if (words body).length == 3 then (if (words body).getD 2 "" == "co1" then "coroutine-caller" else "coroutine-caller-several-loops") else "thread-caller"], blame := some [] }
 end Oc.Driver.RtWait
